@@ -18,7 +18,29 @@ KINDS = ["str", "Path", "file@0", "file@1", "file@mid", "file@end", "bytesio@0",
          # streams whose name points at a file of another length than what the stream yields
          "pendingwrites@end", "gzip@0",
          # a caller's stream whose read fails part-way: the store must not report success for a prefix
-         "failing-eio@0", "failing-eintr@0"]
+         "failing-eio@0", "failing-eintr@0",
+         # environment answer SHORT READ: a buffered stream over an interactive raw source (pipe, socket, tty) may return fewer
+         # bytes than asked for - only b"" means end of data
+         "short1@0", "short1000@mid", "shortvar@1"]
+
+
+class _ShortReads(io.BytesIO):
+    """In-memory stream whose read(n) returns at most `cap` bytes (`cap` = 0: 1, 2, 3, ... growing), like a BufferedReader
+    over a pipe; read() / read(-1) returns everything."""
+
+    def __init__(self, data, cap):
+        super().__init__(data)
+        self._cap = cap
+        self._k = 0
+
+    def read(self, n=-1):
+        if n is None or n < 0:
+            return super().read()
+        self._k += 1
+        cap = self._cap or (1 + self._k % 97)
+        return super().read(min(n, cap))
+
+    read1 = read
 
 
 class _Failing(io.BytesIO):
@@ -88,6 +110,10 @@ def _case(args):
                 arg = stream = _Failing(data, OSError(5, "Input/output error (injected into the caller's stream)"))
             elif base == "failing-eintr":
                 arg = stream = _Failing(data, InterruptedError(4, "Interrupted system call (injected)"))
+            elif base.startswith("short"):
+                if size > 70000:
+                    continue  # (one byte per read: keep the large sizes out)
+                arg = stream = _ShortReads(data, {"short1": 1, "short1000": 1000, "shortvar": 0}[base])
             elif base == "bytesio":
                 arg = stream = io.BytesIO(data)
             else:
